@@ -14,7 +14,8 @@ RULE_TEXT = ("C10-T: obligations over the HIR and the path summaries of the sing
              "(write, flush, clear) before any read or back-edge, write only when non-empty; T5 the response buffer "
              "is used only by run/is_empty/write/clear and write's argument is that buffer."
              " C10-C04X: execute writes a terminator only after a successful query and nothing otherwise (rule C04-X)."
-             " C10-K: the buffer discipline of process (rules K1-K7 of C07). C10-C01X: the handler slot follows the query flag (rule C01-X) - a header in the wrong form executes nothing and writes nothing.")
+             " C10-K: the buffer discipline of process (rules K1-K7 of C07). C10-C01X: the handler slot follows the query flag (rule C01-X) - a header in the wrong form executes nothing and writes nothing."
+             " C10-B: on every witness interface each command-form spelling that reaches a library function reaches one whose Ok type is `()` - the dispatcher writes whatever the handler returns.")
 
 PROCESS = "microscpi::interface::Interface::process"
 ADAPTER = "microscpi::interface::Adapter::"
@@ -171,6 +172,54 @@ def run(ck):
     import c01
     with ck.under("C01-", "C10-C01"):
         c01.rule_X(ck, lib)
+    rule_B(ck, lib)
+
+
+def rule_B(ck, lib):
+    """C10-B: "never writes anything other than query responses" - the dispatcher writes whatever its handler returns, so
+    a header in command form must be bound to a handler without a response value. For the commands the library itself
+    declares (StandardCommands, ErrorCommands) that is a fact of the tree: on every witness interface, each command-form
+    spelling of the emitted trie that reaches a library function reaches one whose Ok type is `()`."""
+    import re
+    import witness
+    if getattr(ck, "cfg_rerun", False):
+        return
+    fs, specs, failures = witness.build(ck, ck.seed, 400 if ck.tier == "thorough" else 40)
+    wit = fs.crate("wit.rlib")
+    if fs.rc != 0 or wit is None:
+        for (sp, msg) in failures:
+            ck.bad("C10-B", "witness:%s:build" % (sp["mod"] if sp else "crate"), "witness interfaces do not build: %s" % msg[:400])
+        return
+    enums = ctx.enums_of(wit)
+    n_lib = n_cmd = 0
+    for spec in specs:
+        it = witness.Iface(wit, spec)
+        lang, problems, seen = it.language()
+        arms = witness.Arms(it, enums)
+        if lang is None or problems or not arms.ok:
+            continue            # reported by the dispatcher rules (C01-T/D)
+        id2fn = {}
+        for k, xs in arms.by_arm.items():
+            id2fn[k] = sorted({h[1] for x in xs for h in arms.handler_calls(x)})
+        done = set()
+        for (spelling, kind), cid in sorted(lang.items()):
+            for fn in id2fn.get(cid, []):
+                if not fn.startswith("microscpi::"):
+                    continue
+                n_lib += 1
+                if kind != "command" or (cid, fn) in done:
+                    continue
+                done.add((cid, fn))
+                n_cmd += 1
+                b = lib.body(fn)
+                ret = (b or {}).get("ret", "?")
+                m = re.match(r"core::result::Result<(.*), microscpi::error::Error>$", ret)
+                ck.judge(m is not None and m.group(1) == "()", "C10-B", "witness:%s:%s" % (spec["mod"], ":".join(spelling)),
+                         "command form %s -> %s returns no value" % (":".join(spelling), fn.split("::")[-1]),
+                         "the command form `%s` is bound to %s, which returns `%s`: the dispatcher writes that value, so a message that is not a query produces output"
+                         % (":".join(spelling), fn, ret))
+    ck.floor("C10-B", "spellings of library-declared commands examined (positive control: the built-in queries)", n_lib, 20)
+    ck.extra["builtin_command_forms"] = n_cmd
 
 def response_typestate(ck, exits, res_id, rid):
     """T4: typestate of the response buffer along every path segment."""
